@@ -6,8 +6,16 @@ EXPLANATION = ('cbmc over the real engine-selection code of soxr_create (soxr.c:
                'returns the id function of the installed block.')
 ASSUMPTIONS = ['numerical agreement between SIMD and portable kernels is not encodable (floating-point error analysis): not claimed here']
 
+def prepare(workdir):
+    import os
+    open(os.path.join(workdir, 'gen', 'vf_coef_table.h'), 'w').write('static sample_t vf_coefs[COEF_CAP] = {' + ','.join(str(i) for i in range(12000)) + '};\n')
+
+
 def obligations(tier):
     obls = [create_obl(3, timeout=300)]
     for kind in (0, 2, 1, 3, 8):
         obls.append(api_step(4, 0, 0, kind, 2))
+    obls += [kern_eq_obl(p) for p in range(4)]       # table/kernel consistency of the portable-only fixed-length kernels
+    obls += [coefs_obl(0, 0), coefs_obl(0, 2), coefs_obl(1, 0), coefs_obl(1, 2)]   # both coefficient layouts (coef / coef4) are filled by the same real code
+    obls += [drv(1, ns=1), drv(2, ratio='2.0', solver=KISSAT), kern_obl(0, hn=8), kern_obl(0, hn=8, engine='cr64.c')]   # shared length/delay logic
     return obls
